@@ -297,14 +297,14 @@ Definition canon_msg (m : msg) : list Z :=
   | Distribute d | OrigUnicast d | OrigBroadcast d => zlen d :: zs d
   end.
 
-(* what the harness observes of AnnexJCodec.confirmation: class, bvlciLength, parameters *)
+(* what the harness observes of AnnexJCodec.confirmation: bvlciFunction, bvlciLength, class, parameters *)
 Definition canon_decode (bs : list N) : list Z :=
   match dec_bvlci bs with
   | Err e => [1%Z; err_code e]
   | Ok (f, l, body) =>
     match dec_msg f body with
     | Err e => [1%Z; err_code e]
-    | Ok m => 0%Z :: zN l :: canon_msg m
+    | Ok m => 0%Z :: zN f :: zN l :: canon_msg m
     end
   end.
 Definition canon_encode (m : msg) : list Z := bres zs (enc_frame m).
